@@ -9,7 +9,8 @@ const char* opc_name[NOPC] = {"lock+rmw",  "lock+rmw+unlock()", "try_lock",  "tr
                               "store",     "operator=",         "modify",    "modify(ret)",  "lock_shared",
                               "try_lock_shared", "try_lock_shared_for", "try_lock_shared_until", "const lock()", "read",
                               "read(ret)", "modify_detach",     "modify_async", "exchange",   "compare_exchange", "operator T()", "try_lock else same handle=lock()",
-                              "try_lock_shared else same handle=lock_shared()"};
+                              "try_lock_shared else same handle=lock_shared()", "lock+rmw, then handle=other.lock() (hand-over-hand)",
+                              "lock_shared, then handle=other.lock_shared() (hand-over-hand)"};
 
 // ---------------------------------------------------------------- linearizability
 static char g_linmsg[400];
@@ -159,6 +160,19 @@ void add_exclusive_ops(Instance& in, bool enabled)
         auto h = w.try_lock();
         use_exclusive(h, hi, &w.m_mutex, enabled);
     };
+    in.ops[X_HANDOVER] = [enabled](void* p, int) {
+        // lock coupling: the handle of this wrapper is move-assigned from a lock() of a second wrapper; the
+        // assignment releases this wrapper's lock (no leaked lock: other threads must be able to go on)
+        W& w = *(W*)p;
+        W& o = *(W*)g_other;
+        int hi = h_begin(X_HANDOVER);
+        auto h = w.lock();
+        MC_CHECK(bool(h), "null-handle", "lock() returned a null handle");
+        use_exclusive(h, hi, &w.m_mutex, enabled);
+        h = o.lock();
+        MC_CHECK(bool(h) && &*h == &o.m_obj, "handover-target", "after h = other.lock() the handle does not refer to the other object");
+        if (enabled) MC_CHECK(holds(&w.m_mutex) == 0, "leaked-lock", "after h = other.lock() this thread still holds the first wrapper's lock");
+    };
     in.ops[X_RETRY] = [enabled](void* p, int) {
         // a handle that came back null from a try is reused for a blocking acquisition
         W& w = *(W*)p;
@@ -238,6 +252,17 @@ void add_shared_ops(Instance& in, bool enabled)
         int hi = h_begin(S_TRY);
         auto h = w.try_lock_shared();
         use_shared(h, hi, &w.m_mutex, enabled);
+    };
+    in.ops[S_HANDOVER] = [enabled](void* p, int) {
+        const W& w = *(const W*)p;
+        const W& o = *(const W*)g_other;
+        int hi = h_begin(S_HANDOVER);
+        auto h = w.lock_shared();
+        MC_CHECK(bool(h), "null-handle", "lock_shared() returned a null handle");
+        use_shared(h, hi, &w.m_mutex, enabled);
+        h = o.lock_shared();
+        MC_CHECK(bool(h) && &*h == &o.m_obj, "handover-target", "after h = other.lock_shared() the handle does not refer to the other object");
+        if (enabled) MC_CHECK(holds(&w.m_mutex) == 0, "leaked-lock", "after h = other.lock_shared() this thread still holds the first wrapper's lock");
     };
     in.ops[S_RETRY] = [enabled](void* p, int) {
         const W& w = *(const W*)p;
